@@ -56,12 +56,47 @@ def draw_knobs(rng, profile="fast"):
     if profile == "default":
         return {}
     k = {
-        "STATE_MACHINE_TICKER": rng.choice([0.002, 0.005, 0.01, 0.02, 0.05]),
+        # the shipped tick is 0.1 ms: the state machine thread is then runnable almost all the time and
+        # really races the transport thread; coarse ticks make a simulated second cheap. Draw both.
+        "STATE_MACHINE_TICKER": rng.choice([0.0001, 0.0001, 0.0005, 0.002, 0.005, 0.01, 0.02, 0.05]),
         "SLEEP_TIMER": rng.choice([0.1, 0.3, 1.0, 4]),
         "TRACKING_SOCKET_EVENTS_TIMEOUT": rng.choice([0.2, 0.5, 1]),
         "SEND_BUFFER_MAXIMUM_SIZE": rng.choice([4096 * 64, 4096 * 64, 4096, 1200, 600]),
     }
     return k
+
+
+def draw_stalls(rng, threads=("psm_thread", "transport_layer_thread", "recv_message_monitor"), span=400):
+    """0..3 stalled-thread faults for a world-A run."""
+    out = []
+    for _ in range(rng.choice([0, 0, 1, 2, 3])):
+        out.append({"thread": rng.choice(threads), "at": rng.randrange(0, span),
+                    "dur": rng.choice([0.001, 0.01, 0.05, 0.2])})
+    return out
+
+
+SWAP_FUNCS = ["TcpConnection.write", "TcpConnection.write", "TcpConnection.write", "TcpConnection.read",
+              "TcpConnection._set_selector_events_mask", "DiameterAssociation.send_message_from_queue", "TcpConnection._set_selector_events_mask",
+              "TcpConnection.pop_recv_data_stream", "DiameterAssociation.recv_message_from_queue",
+              "DiameterAssociation.send_message_from_queue", "DiameterAssociation.get_message",
+              "DiameterAssociation.get_postprocess_recv_message", "DiameterAssociation.close",
+              "State.set_closed_state", "PeerStateMachine.get_next_state", "TcpConnection.close", "TcpConnection._run"]
+
+
+def draw_func_stalls(rng, funcs=None):
+    """Function-entry anchored stalls: the k-th call of a function that touches shared state is
+    descheduled j steps after entry for a while (about 60 % of the runs carry one or two)."""
+    funcs = funcs or SWAP_FUNCS
+    out = []
+    for _ in range(rng.choice([0, 0, 1, 1, 1, 2])):
+        out.append({"func": rng.choice(funcs), "call": rng.randrange(1, 5), "line": rng.randrange(0, 13),
+                    "dur": rng.choice([0.005, 0.02, 0.1])})
+    return out
+
+
+def install_func_stalls(sim, stalls):
+    for st in stalls or ():
+        sim.func_stalls.setdefault(st["func"], []).append([st["call"], st["line"], st["dur"]])
 
 
 def draw_sched(rng, line=True):
@@ -80,7 +115,7 @@ def draw_sched(rng, line=True):
         d["p_line"] = rng.choice([0.005, 0.02, 0.1])
         d["opcode"] = True
     d["policy"] = pol
-    d["quantum"] = rng.choice([1e-6, 2e-6, 5e-6, 1e-5])
+    d["quantum"] = rng.choice([2e-7, 5e-7, 1e-6, 2e-6, 5e-6])
     return d
 
 
@@ -167,6 +202,21 @@ class WorldA(object):
             rec["t1"] = self.sim.now
         rec["thread"] = self.sim.spawn(body, role="N:" + role)
         return rec
+
+    def apply_stalls(self, stalls):
+        """Stalled-thread faults: {"thread": role substring, "at": k, "dur": d} --
+        the first live thread whose role contains the substring is descheduled
+        for d simulated seconds once it has executed k more steps."""
+        n = 0
+        for st in stalls or ():
+            for t in self.sim.threads:
+                if st["thread"] in t.role and t.state not in ("done", "new"):
+                    plan = [p for p in (t.stall_plan or []) if p[0] < (1 << 59)]
+                    plan.append((t.steps + st["at"], st["dur"]))
+                    t.stall_plan = sorted(plan)
+                    n += 1
+                    break
+        return n
 
     def start_node(self):
         return self.call("start", self.node.start)
